@@ -61,4 +61,89 @@ PROPS = {
     ),
 }
 
+PROPS["C16"] = dict(
+    title="Keyspace options chosen at creation stay in force",
+    modules=["FjallModel.Props.C16"],
+    theorems=["Fjall.Config.c16_options_roundtrip", "Fjall.Config.c16_policy_roundtrip_compression",
+              "Fjall.Config.c16_policy_roundtrip_pinning", "Fjall.Config.c16_policy_roundtrip_block_size",
+              "Fjall.Config.c16_policy_roundtrip_restart_interval", "Fjall.Config.c16_policy_roundtrip_filter",
+              "Fjall.Config.c16_counterexample_ratio_256"],
+    statements={
+        "c16_options_roundtrip": "forall option sets o within the accepted domain (vectors <= 255 entries, numbers within field widths): "
+                                 "fromKvs (lookup (encodeKvs o)) = some o",
+        "c16_policy_roundtrip_*": "decPolicy dec (encPolicy enc xs) = some xs for every vector of <= 255 elements, for each element codec",
+        "c16_counterexample_ratio_256": "a 256-entry vector is stored with count byte 0 and decodes to [] (finding F17: the guard is exact)",
+    },
+    engines=[dict(bin="config", cases_quick=400, cases_thorough=20000, profiles=["release"], profiles_thorough=["release", "dev"])],
+    rule="case = random KeyspaceCreateOptions built through every public setter (policy vectors of length 1..255, all strategies and "
+         "parameters, blob options present/absent, extreme numerics incl. NaN/inf bit patterns); stored meta rows compared bit-exactly "
+         "with model encodeKvs; after 1..3 reopens *passing different options* the effective options (read through the struct fields, "
+         "get_config() and a hook for crate-private scalars) must equal the creation-time options and the model's fromKvs of the stored "
+         "rows. non-trivial = >= 3 options differ from defaults and one vector has a non-default length; distinct = hash of the option set",
+    trusted_base=["lsm-tree's policy constructors (accept 1..255 entries) and strategy get_config() are modelled from their source, not verified",
+                  "f32 values are carried as bit patterns"],
+    assumptions=["option values are observed through public (doc-hidden) struct fields, get_config(), and the cfg(fjall_verif) hook keyspace_scalar_options"],
+    level_text="Lean 4 theorems: the six policy codecs and the whole encode_kvs/from_kvs pair are inverse on every accepted option set; tied to "
+               "the code by bit-exact comparison of the stored rows and by comparing effective options across reopen",
+    level_note="trusted: Lean kernel; harness; lsm-tree constructors/get_config as read; level_count fixed at 7 is not user-settable",
+    technique="Lean 4 proof (generic policy-vector round trip + row-lookup evaluation) + differential correspondence",
+    design_ref="6 C16",
+)
+
+PROPS["C17"] = dict(
+    title="One live instance per directory, and only compatible directories open",
+    modules=["FjallModel.Props.C17"],
+    theorems=["Fjall.Version.c17_version_accepts_iff", "Fjall.Version.c17_refused_open_writes_nothing",
+              "Fjall.Version.c17_locked_refuses", "Fjall.Version.c17_open_ok_only_when_free",
+              "Fjall.Version.c17_unlocked_after_last_drop", "Fjall.Version.c17_counterexample_marker_absent"],
+    statements={
+        "c17_version_accepts_iff": "forall marker bytes: checkVersion bytes = ok <-> bytes starts with 'F' 'J' 'L' 0x03",
+        "c17_refused_open_writes_nothing": "on a directory with a marker, a refused open (wrong/unknown version, or locked) leaves the directory state unchanged",
+        "c17_locked_refuses": "while >= 1 handle is alive every open attempt is refused and changes nothing",
+        "c17_open_ok_only_when_free": "an open succeeds only from 0 live handles and leaves exactly 1",
+        "c17_counterexample_marker_absent": "marker absent and 0.jnl absent: the create path succeeds and writes (finding F12)",
+    },
+    engines=[dict(bin="lockver", cases_quick=240, cases_thorough=4000, profiles=["release"], shards=8)],
+    rule="even case seeds: marker file contents (1-byte edits, truncations, extensions, random bytes, other versions) on a real database "
+         "directory -> open result class vs model checkVersion vs oracle 'accepted iff prefix FJL\\x03', directory tree hash unchanged on refusal; "
+         "odd seeds: random open / clone (Database, Keyspace, tx database handles) / drop orders with second-open attempts while handles live; "
+         "open results vs model vs oracle 'ok iff no handle alive'. non-trivial = marker differs from FJL\\x03, or a second open is attempted "
+         "while a handle is alive",
+    trusted_base=["flock(2) semantics, thread shutdown and the final journal sync at drop are runtime behaviour: exercised, not proved",
+                  "the Dir model abstracts the directory to (marker bytes, 0.jnl present, mutation counter, live-handle count)"],
+    assumptions=["one process; handles of all kinds share one lock guard (read from the source: LockedFileGuard is an Arc cloned into every Keyspace)"],
+    level_text="Lean 4 theorems about the version gate (all byte strings) and the open/lock state machine (all open/clone/drop sequences); partial: "
+               "OS locking, worker shutdown and drop-time sync are exercised by the engine, not modelled. The 'marker absent' clause is false on "
+               "the unchanged code (known finding F12) and stated as a counterexample theorem",
+    level_note="partial: flock/thread/drop behaviour trusted; model granularity is the directory-level state machine",
+    technique="Lean 4 proof (case analysis on marker bytes; state-machine invariants) + differential correspondence",
+    design_ref="6 C17",
+)
+
+PROPS["C05"] = dict(
+    title="Snapshots, read transactions and iterators are frozen in time",
+    modules=["FjallModel.Props.C05"],
+    theorems=["Fjall.Tracker.c05_tracker_inv", "Fjall.Tracker.c05_tracker_inv_run", "Fjall.Tracker.c05_watermark_monotone",
+              "Fjall.Tracker.c05_live_instant_protected", "Fjall.Tracker.c05_counterexample_gc_sentinel"],
+    statements={
+        "c05_tracker_inv": "in every state reachable by open/clone/close/publish/set/gc(any DashMap order)/pullup with nonces closed once: "
+                           "table counts every live nonce; watermark <= I-1 for every live instant I; watermark <= visible-1; no future keys",
+        "c05_watermark_monotone": "no step decreases the GC watermark (pullup stores visible-1; safe by the invariant)",
+        "c05_counterexample_gc_sentinel": "the pre-fix gc (0 as 'nothing yet' marker) on table {5,0,9} in that order yields watermark 8 > live 5 (F19, fixed)",
+    },
+    engines=[dict(bin="tracker", cases_quick=2000, cases_thorough=40000, profiles=["release"], profiles_thorough=["release", "dev"])],
+    rule="case = random sequence of snapshot open (half the cases start with a snapshot of the fresh database, instant 0) / drop / writes "
+         "(publish) / keyspace creation / tracker gc / pullup on a real database; after every step open_snapshots(), the GC watermark and "
+         "the visible seqno are compared with the Lean tracker model, and the oracle 'watermark <= every live instant > 0' is checked. "
+         "non-trivial = two nonces share an instant or a gc runs while a nonce is alive",
+    trusted_base=["stage 1 covers the tracker; version history (lsm-tree SuperVersions) and iterators are modelled in later stages",
+                  "DashMap/RwLock atomicity of single tracker operations is trusted"],
+    assumptions=["each SnapshotNonce is closed exactly once (Clone/Drop discipline)"],
+    level_text="Lean 4 invariant proof over all tracker histories and all DashMap visiting orders (stage 1 of the C05 chain), tied to the real "
+               "SnapshotTracker by step-by-step comparison of its observables; the view-stability and iterator theorems are being added",
+    level_note="partial: thread schedules and lsm-tree's version history are trusted/exercised",
+    technique="Lean 4 proof (inductive invariant over operation histories) + differential correspondence",
+    design_ref="6 C05",
+)
+
 ALL_IDS = [f"C{i:02d}" for i in range(1, 19)]
